@@ -271,21 +271,21 @@ func main() {
 				runCase(c, n, w)
 			},
 			Describe: func(i int64) any { return sp.SeedlessCase(i).Describe() }},
-		{Name: "neigh", Len: sp.NeighLen(),
+		{Name: "neigh", Len: sp.NeighDeepLen(),
 			Run: func(i int64, w *enum.Worker) {
-				c := sp.NeighCase(i)
+				c := sp.NeighDeepCase(i)
 				n := n1opts
 				if c.Dev == 0 {
 					n = 16
 				}
 				runCase(c, n, w)
 			},
-			Describe: func(i int64) any { return sp.NeighCase(i).Describe() }},
+			Describe: func(i int64) any { return sp.NeighDeepCase(i).Describe() }},
 		{Name: "cross", Len: sp.CrossLen(),
 			Run:      func(i int64, w *enum.Worker) { runCase(sp.CrossCase(i), 4, w) },
 			Describe: func(i int64) any { return sp.CrossCase(i).Describe() }},
 	}
-	r.Coverage["rule"] = "cases = (first layer, input) as in C19 (all strings <=2 bytes + constant fills x every first layer; deviation<=1 neighbourhoods of per-type seeds; every seed x every first layer) x decode option sets {Lazy,DSAD,NoCopy,Pool} (all 16 for seedless and unmodified seeds, Lazy x DSAD for deviation-1 in the quick tier) with recovery on; after each decode the full read-only accessor suite runs. Oracle: no panic, error-layer contract observed through a transparent wrapper PacketBuilder. distinct_nontrivial = distinct (first layer, layer-type sequence, error, truncated) outcomes."
+	r.Coverage["rule"] = "cases = (first layer, input) as in C19 (all strings <=2 bytes + constant fills x every first layer; deviation<=1 neighbourhoods of per-type seeds, with the length-field deviations beyond the first 96 [256] bytes to the end of the seed; every seed x every first layer) x decode option sets {Lazy,DSAD,NoCopy,Pool} (all 16 for seedless and unmodified seeds, Lazy x DSAD for deviation-1 in the quick tier) with recovery on; after each decode the full read-only accessor suite runs. Oracle: no panic, error-layer contract observed through a transparent wrapper PacketBuilder. distinct_nontrivial = distinct (first layer, layer-type sequence, error, truncated) outcomes."
 	r.Coverage["first_layers"] = len(sp.Firsts)
 	r.Coverage["per_type_seeds"] = len(sp.TSeeds)
 	r.Assumptions = []string{"bounded time = no case consumes 120 s of CPU time (or blocks for 30 min); memory = RLIMIT_AS 6 GiB per worker", "the wrapper PacketBuilder is transparent (checked on every case: wrapped and plain decode give the same signature)", "inputs outside the enumerated neighbourhoods are not covered"}
